@@ -18,7 +18,10 @@ CONSTANTS Slots, MaxOps
 (* encoding -- accepted by the parser, so everything but "re-serializes to the parsed bytes" applies to it as well                              *)
 (* local: a signature whose document hash is the root of a LOCAL aggregation tree (issued for a level above 0): a local aggregation chain can be    *)
 (* prepended to it, which yields a signature for the local leaf                                                                             *)
-SigKinds == {"nocal", "calonly", "auth", "pub", "pub2", "broken", "nonmin", "local"}
+(* locallvl: the same, for a local tree whose LEAVES carry input level 3 (the chain is prepended with that start level, and the result is a signature   *)
+(* for the leaf at any input level up to 3)                                                                                                    *)
+LocalKinds == {"local", "locallvl"}
+SigKinds == {"nocal", "calonly", "auth", "pub", "pub2", "broken", "nonmin"} \cup LocalKinds
 Free == [base |-> "-", ext |-> "-", lvl |-> 0, pre |-> FALSE]
 Contents == [base : SigKinds, ext : {"none", "head", "later", "pubrec1", "pubrec2"}, lvl : 0..4, pre : BOOLEAN]
 
@@ -27,7 +30,7 @@ vars == <<obj, ops, log>>
 Live == {s \in Slots : obj[s] # Free}
 HasPubRec(c) == (c.base \in {"pub", "pub2", "nonmin"} /\ c.ext = "none") \/ c.ext \in {"pubrec1", "pubrec2"}
 PubRecOf(c) == IF c.ext = "pubrec1" \/ (c.ext = "none" /\ c.base \in {"pub", "nonmin"}) THEN "pubrec1" ELSE "pubrec2"
-Extendable(c) == c.base \notin {"broken", "local"} /\ c.ext = "none" /\ c.base # "pub2"
+Extendable(c) == c.base \notin ({"broken"} \cup LocalKinds) /\ c.ext = "none" /\ c.base # "pub2"
 
 Init == obj = [s \in Slots |-> Free] /\ ops = <<>> /\ log = 0
 Rec(o) == ops' = Append(ops, [op |-> o.op, a |-> o.a, b |-> o.b, c |-> o.c, post |-> obj'])
@@ -48,7 +51,7 @@ AddLevel(d, s, l) == /\ obj[d] = Free /\ obj[s] # Free /\ obj[s].base # "broken"
                      /\ obj' = IF l = 0 THEN [obj EXCEPT ![d] = obj[s]] ELSE obj
                      /\ Rec([op |-> "addlevel", a |-> d, b |-> s, c |-> l]) /\ UNCHANGED log
 (* prepending the local aggregation chain (signature builder): a new object; the source is not touched *)
-Prepend(d, s) == /\ obj[d] = Free /\ obj[s] # Free /\ obj[s].base = "local" /\ ~obj[s].pre
+Prepend(d, s) == /\ obj[d] = Free /\ obj[s] # Free /\ obj[s].base \in LocalKinds /\ ~obj[s].pre
                  /\ obj' = [obj EXCEPT ![d] = [obj[s] EXCEPT !.pre = TRUE]]
                  /\ Rec([op |-> "prepend", a |-> d, b |-> s, c |-> "-"]) /\ UNCHANGED log
 Release(s) == /\ obj[s] # Free /\ obj' = [obj EXCEPT ![s] = Free]
